@@ -83,6 +83,28 @@ func NewFileStorage(filename string, lockFilename ...string) (storage.Storage, e
 	return &fs, nil
 }
 
+// closeTornTail ends the last line of the data file if it does not end in a newline
+func (fs *FileStorage) closeTornTail() error {
+	info, err := fs.dataFile.Stat()
+	if err != nil {
+		return fmt.Errorf("failed to stat a data file:  %w", err)
+	}
+	if info.Size() == 0 {
+		return nil
+	}
+	last := make([]byte, 1)
+	if _, err = fs.dataFile.ReadAt(last, info.Size()-1); err != nil {
+		return fmt.Errorf("failed to read the end of a data file:  %w", err)
+	}
+	if last[0] == '\n' {
+		return nil
+	}
+	if _, err = fs.dataFile.Write([]byte{'\n'}); err != nil {
+		return fmt.Errorf("failed to close a torn line of a data file:  %w", err)
+	}
+	return nil
+}
+
 // Send sends a message to an append-only data file, returns a message with offset and id
 func (fs *FileStorage) send(m storage.Message) (storage.Message, error) {
 	var (
@@ -98,6 +120,12 @@ func (fs *FileStorage) send(m storage.Message) (storage.Message, error) {
 	defer fs.lockFile.Unlock()
 
 	m.ID = uuid.New().String()
+
+	// a tail without a newline is what a writer that died in the middle of an append left behind (appends
+	// are made under the lock held here): it is closed, so that the new entry starts a line of its own
+	if err = fs.closeTornTail(); err != nil {
+		return m, err
+	}
 
 	if _, err = fs.dataFile.Seek(0, 0); err != nil { // otherwise countLines will return zero
 		return m, fmt.Errorf("failed to seek a offset to the start of a data file:  %w", err)
@@ -153,9 +181,11 @@ func (fs *FileStorage) GetMessages(offset uint64) ([]storage.Message, error) {
 			continue
 		}
 
+		// a line that is no message (torn by a writer that died, or not written by Send at all) keeps its
+		// position and is passed over: failing here would end the Poll loop of every participant for good
 		row = scanner.Bytes()
 		if err = json.Unmarshal(row, &data); err != nil {
-			return nil, fmt.Errorf("failed to unmarshal a message %s: %w", string(row), err)
+			continue
 		}
 
 		_, idOk := fs.idIgnoreList[data.ID]
